@@ -2,4 +2,4 @@ import servercheck
 
 
 def run(tier):
-    return servercheck.run("C24", tier, ["auth", "roles"], "auth", 10, 60, 120)
+    return servercheck.run("C24", tier, ["auth", "roles"], "auth", 10, 60, 120, mbt=True)
